@@ -224,6 +224,7 @@ func HarnessC15Sync() {
 	c0 := mk(remote, "c0", nil)
 	c1 := mk(remote, "c1", c0)
 	c2 := mk(remote, "c2", c1)
+	c3 := mk(remote, "c3", c2)
 	f0 := mk(remote, "f0", nil)
 	f1 := mk(remote, "f1", f0)
 	// common prefix: main and feature recorded at c0 / f0 on the remote, cloned
@@ -233,7 +234,7 @@ func HarnessC15Sync() {
 	common = append(common, zz15Record(remote, common, zz15Entry{kind: 0, ref: main, target: c0}))
 	common = append(common, zz15Record(remote, common, zz15Entry{kind: 0, ref: feature, target: f0}))
 	local.CopyCommitsFrom(remote, remote.Ref(rsl.Ref))
-	local.CopyCommitsFrom(remote, c2)
+	local.CopyCommitsFrom(remote, c3)
 	local.CopyCommitsFrom(remote, f1)
 	local.SetRef(rsl.Ref, remote.Ref(rsl.Ref))
 	local.SetRef(main, c0)
@@ -252,7 +253,7 @@ func HarnessC15Sync() {
 			switch verif.Concrete(verif.Choice(p+".kind", 3)) {
 			case 0:
 				mainAt++
-				t := []githash.Hash{c1, c2}[mainAt-1]
+				t := []githash.Hash{c1, c2, c3}[mainAt-1]
 				s.SetRef(main, t)
 				log = append(log, zz15Record(s, log, zz15Entry{kind: 0, ref: main, target: t}))
 			case 1:
